@@ -117,6 +117,13 @@ def entry_points(T: str, D: str):
     eps.append(("aspolynomial(x_T, dtype=D)", lambda: numpoly.aspolynomial(xT, dtype=D), {(0,): castTD}))
     eps.append(("polynomial_from_attributes(dtype=D)", lambda: numpoly.polynomial_from_attributes([[0], [1]], [xT, one], names=("q0",), dtype=D), {(0,): castTD, (1,): one.astype(D)}))
     eps.append(("polynomial_from_attributes()", lambda: numpoly.polynomial_from_attributes([[0], [2]], [xT, one], names=("q0",)), {(0,): xT, (2,): one}))
+    # ordering functions on constants of every dtype (unsigned types wrap under negation)
+    with numpy.errstate(all="ignore"):
+        if numpy.dtype(T).kind not in "c" and numpy.dtype(D).kind not in "c":
+            eps.append(("minimum(x_T, y_D)", lambda: numpoly.minimum(numpoly.polynomial(xT), numpoly.polynomial(yD)), {(0,): numpy.minimum(xT, yD)}))
+            eps.append(("maximum(x_T, y_D)", lambda: numpoly.maximum(numpoly.polynomial(xT), numpoly.polynomial(yD)), {(0,): numpy.maximum(xT, yD)}))
+            z = numpy.zeros(3, dtype=D)
+            eps.append(("minimum(x_T, 0_D)", lambda: numpoly.minimum(numpoly.polynomial(xT), numpoly.polynomial(z)), {(0,): numpy.minimum(xT, z)}))
     # heterogeneous coefficient dtypes and no dtype request: the polynomial takes the first coefficient's dtype and numpy's cast of the rest
     with numpy.errstate(all="ignore"):
         castDT = yD.astype(T)
@@ -312,8 +319,10 @@ def gen_cases(tier: str, seed: int) -> List[Dict]:
     if quick:
         diag = [(T, T) for T in DTYPES]
         rest = [p for p in pairs if p[0] != p[1]]
+        special = [p for p in rest if "bool" in p or p[0].startswith("complex")]  # casts with non-obvious rules: always
+        rest = [p for p in rest if p not in special]
         rng.shuffle(rest)
-        pairs = diag + rest[:70]
+        pairs = diag + special + rest[:50]
     for T, D in pairs:
         cases.append({"id": "C12-A-%s-%s" % (T, D), "op": "dtype", "part": "A", "T": T, "D": D})
     # Part B: catalogue under Havoc
